@@ -3,5 +3,6 @@ CONSTANTS
   Impl = "fixed"
   Reps <- GenReps
   Wide = TRUE
+  Limits = {2097152, 5242880, 10485760}
 INVARIANTS Emit
 CHECK_DEADLOCK FALSE
